@@ -565,11 +565,13 @@ class LFRicLoop(PSyLoop):
                     return True
                 if (not arg.discontinuous and
                         self.kernel.iterates_over == "cell_column" and
-                        self.kernel.all_updates_are_writes and
+                        self.kernel.all_updates_are_shared_writes and
                         self._upper_bound_name == "ncells"):
                     # This is the special case of a kernel that guarantees to
                     # write the same value to any given dof, irrespective of
-                    # cell column.
+                    # cell column. (A kernel that writes to a field on a
+                    # discontinuous space may use the annexed dofs it reads
+                    # to compute owned dofs.)
                     return False
                 if not arg.discontinuous and \
                    self._upper_bound_name in ["ncells", "nannexed"]:
